@@ -3031,6 +3031,12 @@ class QuicConnection:
         ):
             self._version = self._crypto_packet_version
             self._version_negotiated_compatible = True
+            if self._version in self._cryptos_initial:
+                # Later Initial packets carry the negotiated version, so they
+                # must be protected with that version's Initial keys.
+                self._cryptos[tls.Epoch.INITIAL] = self._cryptos_initial[
+                    self._version
+                ]
             self._logger.info(
                 "Negotiated protocol version %s", pretty_protocol_version(self._version)
             )
